@@ -72,8 +72,20 @@ func ldRandScheme(r *Run) string {
 	return s
 }
 
+// The observations at this layer are not by themselves violations of C10 (nothing is denied or accepted here): a difference
+// between the real code and the model breaks the correspondence, the differences the property cares about are decided by the
+// repository histories. Under C15 one of them *is* the property: a loader object that gives up on a distribution point which
+// answers ("again after failed attempts") - there it is an oracle violation.
 func c10LoaderStream(r *Run) {
 	logger := zap.NewNop()
+	flag := func(sig, detail string) {
+		if r.Prop == "C15" && strings.HasPrefix(sig, "C15 ") {
+			r.Violate(sig, detail, nil)
+			return
+		}
+		r.Count("ld:remark:" + sig)
+		r.Note("loader layer: " + sig + ": " + detail)
+	}
 	// ---- utils.Retry
 	nRetry := 400
 	if r.Thorough() {
@@ -124,7 +136,7 @@ func c10LoaderStream(r *Run) {
 			}
 		}
 		if calls < 1 || calls > bound || (first >= 0) != (err == nil) || (first >= 0 && calls != first+1) || (first < 0 && calls != bound) {
-			r.Violate("C10 retry-contract", fmt.Sprintf("utils.Retry(%d) over outcomes %q: %s", attempts, script, obs), nil)
+			flag("retry-contract", fmt.Sprintf("utils.Retry(%d) over outcomes %q: %s", attempts, script, obs))
 		}
 		r.Eval("ld-retry/"+fmt.Sprint(attempts)+"/"+script, true)
 		r.Count("ld:retry")
@@ -191,14 +203,14 @@ func c10LoaderStream(r *Run) {
 			}
 			for _, m := range made {
 				if !strings.HasPrefix(strings.ToLower(m), "http") {
-					r.Violate("C10 loader-for-unsupported-scheme", fmt.Sprintf("distribution points %q: a loader was created for %q", loc.CRLDistributionPoints, m), nil)
+					flag("loader-for-unsupported-scheme", fmt.Sprintf("distribution points %q: a loader was created for %q", loc.CRLDistributionPoints, m))
 				}
 			}
 			if usable > 0 && err != nil {
-				r.Violate("C10 usable-distribution-point-ignored", fmt.Sprintf("distribution points %q: no loader although %d are http(s)", loc.CRLDistributionPoints, usable), nil)
+				flag("C15 usable-distribution-point-ignored", fmt.Sprintf("distribution points %q: no loader although %d are http(s)", loc.CRLDistributionPoints, usable))
 			}
 			if len(made) < usable {
-				r.Violate("C10 usable-distribution-point-ignored", fmt.Sprintf("distribution points %q: %d loaders for %d http(s) locations", loc.CRLDistributionPoints, len(made), usable), nil)
+				flag("C15 usable-distribution-point-ignored", fmt.Sprintf("distribution points %q: %d loaders for %d http(s) locations", loc.CRLDistributionPoints, len(made), usable))
 			}
 		}
 		r.Eval("ld-factory/"+obs, obs != "error")
@@ -242,13 +254,13 @@ func c10LoaderStream(r *Run) {
 			seen := map[int]bool{}
 			for _, t := range trace {
 				if seen[t] {
-					r.Violate("C10 loader-called-twice-in-one-load", fmt.Sprintf("n=%d call %q: trace %v", n, cur, trace), nil)
+					flag("loader-called-twice-in-one-load", fmt.Sprintf("n=%d call %q: trace %v", n, cur, trace))
 				}
 				seen[t] = true
 			}
 			anyOK := strings.Contains(cur, "1")
 			if anyOK != (err == nil) {
-				r.Violate("C10 multi-loader-gave-up-although-a-location-answers", fmt.Sprintf("n=%d calls so far %v, now %q: err=%v trace=%v", n, calls, cur, err, trace), nil)
+				flag("C15 multi-loader-gave-up-although-a-location-answers", fmt.Sprintf("n=%d calls so far %v, now %q: err=%v trace=%v", n, calls, cur, err, trace))
 			}
 			tj := strings.Join(ts, ".")
 			if tj == "" {
@@ -339,11 +351,11 @@ func c10LoaderRealRetries(r *Run, logger *zap.Logger) {
 	d := time.Since(t0)
 	wantSleeps := time.Duration(crlloader.CRLLoaderRetryCount-1) * crlloader.CRLLoaderRetryDelay
 	if e1 == nil || d < wantSleeps-50*time.Millisecond || d > wantSleeps+3*time.Second {
-		r.Violate("C10 file-loader-retry-contract", fmt.Sprintf("missing file: err=%v after %v (expected an error after about %v)", e1, d, wantSleeps), nil)
+		r.Note(fmt.Sprintf("loader layer: file loader, missing file: err=%v after %v (expected an error after about %v)", e1, d, wantSleeps))
 	}
 	os.WriteFile(fl.FileName, []byte("x"), 0600)
 	if e2 := fl.LoadCRL(filepath.Join(dir, "out2")); e2 != nil {
-		r.Violate("C10 file-loader-retry-contract", "present file: "+e2.Error(), nil)
+		r.Note("loader layer: file loader, present file: " + e2.Error())
 	}
 	r.Count("ld:real-file-retry")
 }
